@@ -10,6 +10,7 @@ import (
 	"github.com/ethereum/go-ethereum/common"
 	ethcrypto "github.com/ethereum/go-ethereum/crypto"
 	pubsub "github.com/libp2p/go-libp2p-pubsub"
+	"google.golang.org/protobuf/proto"
 
 	"github.com/shutter-network/rolling-shutter/rolling-shutter/medley/identitypreimage"
 	"github.com/shutter-network/rolling-shutter/rolling-shutter/p2pmsg"
@@ -275,7 +276,6 @@ func runC06(r *simkit.Run) {
 				}
 			}
 		}
-		noExtra := false
 		if w.fl == flGnosis {
 			km.Extra = &p2pmsg.DecryptionKeys_Gnosis{Gnosis: &p2pmsg.GnosisDecryptionKeysExtra{Slot: slot, TxPointer: txp, SignerIndices: signers, Signatures: sigs}}
 		} else {
@@ -285,6 +285,7 @@ func runC06(r *simkit.Run) {
 			}
 		}
 		// post-signing single-field change of the message
+		orig := proto.Clone(km).(*p2pmsg.DecryptionKeys)
 		changed := ""
 		if c.Chance(200, "post-change") {
 			switch c.Intn(6, "post-field") {
@@ -327,83 +328,95 @@ func runC06(r *simkit.Run) {
 				changed = "identities"
 			case 3:
 				km.Extra = nil
-				noExtra = true
+
 				changed = "extra-removed"
 			}
 			if changed != "" && !(w.fl == flService && len(signers) == 0 && len(sigs) == 0 && changed != "extra-removed") {
 				sigOK = false
 			}
 		}
-		// final reference verdict, recomputed from the message as sent: exactly threshold
-		// strictly increasing in-range signers, one signature each, each THE signature of that
-		// keyper over the message's own fields (ECDSA signing is deterministic, RFC 6979)
-		{
+		// reference verdict, computed from a message as sent: exactly threshold strictly
+		// increasing in-range signers, one signature each, each THE signature of that keyper over
+		// the message's own fields (ECDSA signing is deterministic, RFC 6979)
+		refVerdict := func(m *p2pmsg.DecryptionKeys) bool {
 			var fids [][]byte
-			for _, k := range km.Keys {
+			for _, k := range m.Keys {
 				fids = append(fids, k.IdentityPreimage)
 			}
 			fslot, ftxp := slot, txp
-			if g, ok := km.Extra.(*p2pmsg.DecryptionKeys_Gnosis); ok {
+			if g, ok := m.Extra.(*p2pmsg.DecryptionKeys_Gnosis); ok {
 				fslot, ftxp = g.Gnosis.Slot, g.Gnosis.TxPointer
 			}
-			sigOK = !noExtra && structOK && len(sigs) == len(signers)
-			if sigOK {
+			hasExtra := m.Extra != nil
+			ok := hasExtra && structOK && len(sigs) == len(signers)
+			if ok {
 				for i := range sigs {
-					if int(signers[i]) == zeroIdx || !bytes.Equal(sigs[i], sign(members[signers[i]], km.InstanceId, km.Eon, fslot, ftxp, fids)) {
-						sigOK = false
+					if int(signers[i]) == zeroIdx || !bytes.Equal(sigs[i], sign(members[signers[i]], m.InstanceId, m.Eon, fslot, ftxp, fids)) {
+						ok = false
 					}
 				}
 			}
-			if w.fl == flService && !noExtra && len(signers) == 0 && len(sigs) == 0 {
-				sigOK = true // the documented empty case
+			if w.fl == flService && hasExtra && len(signers) == 0 && len(sigs) == 0 {
+				ok = true // the documented empty case
 			}
 			// structural rule of every flavour: identities non-decreasing (a shortened copy of a
 			// repeated identity sorts in front of its twin)
 			for i := 1; i < len(fids); i++ {
 				if bytes.Compare(fids[i-1], fids[i]) > 0 {
-					sigOK = false
+					ok = false
 				}
 			}
+			return ok
 		}
-		data, err := p2pmsg.Marshal(km, nil)
-		if err != nil {
-			r.InfraFail("marshal: %v", err)
+		sendAndCheck := func(m *p2pmsg.DecryptionKeys, desc string) {
+			want := refVerdict(m)
+			data, err := p2pmsg.Marshal(m, nil)
+			if err != nil {
+				r.InfraFail("marshal: %v", err)
+			}
+			p := w.net.Inject("byz", "decryptionKeys", data)
+			r.Eventf("byz #%d %s (reference: signatures ok=%t)", p.ID, desc, want)
+			if !w.run(200000) {
+				r.Fail("no-quiescence", "steps", "no quiescence")
+			}
+			if r.Failed() {
+				r.Fail("", "", "")
+			}
+			check := func(who string) {
+				res, ok := verdicts[p.ID][who]
+				if !ok {
+					r.Fail("message-not-validated", who, "message #%d never validated by %s", p.ID, who)
+				}
+				got := res == pubsub.ValidationAccept
+				if got && !want {
+					r.Fail("accepted-without-genuine-threshold-signatures", w.fl.String()+"/"+who, "%s accepted keys message #%d (%s) although it does not carry exactly threshold=%d valid signatures of distinct in-range signers over its own fields", who, p.ID, desc, t)
+				}
+				if !got && want {
+					r.Fail("correctly-signed-message-rejected", w.fl.String()+"/"+who, "%s rejected keys message #%d (%s) which is correctly signed by threshold keypers", who, p.ID, desc)
+				}
+				if got {
+					r.Probe("accepted")
+				} else {
+					r.Probe("rejected")
+				}
+			}
+			check("recv")
+			if access != nil {
+				check("access")
+			}
 		}
 		desc := fmt.Sprintf("signers=%v nsig=%d allGood=%t changed=%q", signers, len(sigs), allGood, changed)
-		p := w.net.Inject("byz", "decryptionKeys", data)
-		r.Eventf("byz #%d %s (reference: signatures ok=%t)", p.ID, desc, sigOK)
 		if len(sigs) != len(signers) {
 			r.Nontrivial = true
 			r.Probe("unequal-lengths")
 		}
-		if !w.run(200000) {
-			r.Fail("no-quiescence", "steps", "no quiescence")
+		if changed != "" && changed != "extra-removed" && c.Chance(500, "original-sent-first") {
+			// the message as it was signed goes out first (and is accepted if genuine); its
+			// signatures must not carry over to the changed copy that follows
+			sendAndCheck(orig, desc+" [as signed, before the change]")
+			r.Probe("changed-copy-after-its-original")
 		}
-		if r.Failed() {
-			r.Fail("", "", "")
-		}
-		check := func(who string) {
-			res, ok := verdicts[p.ID][who]
-			if !ok {
-				r.Fail("message-not-validated", who, "message #%d never validated by %s", p.ID, who)
-			}
-			got := res == pubsub.ValidationAccept
-			if got && !sigOK {
-				r.Fail("accepted-without-genuine-threshold-signatures", w.fl.String()+"/"+who, "%s accepted keys message #%d (%s) although it does not carry exactly threshold=%d valid signatures of distinct in-range signers over its own fields", who, p.ID, desc, t)
-			}
-			if !got && sigOK {
-				r.Fail("correctly-signed-message-rejected", w.fl.String()+"/"+who, "%s rejected keys message #%d (%s) which is correctly signed by threshold keypers", who, p.ID, desc)
-			}
-			if got {
-				r.Probe("accepted")
-			} else {
-				r.Probe("rejected")
-			}
-		}
-		check("recv")
-		if access != nil {
-			check("access")
-		}
+		sendAndCheck(km, desc)
 		// the handler must have survived: the node's message loop is still alive
 		select {
 		case <-nd.ctx.Done():
